@@ -13,6 +13,19 @@ st = subprocess.run('git -C /repo status --porcelain', shell=True, stdout=subpro
 if st:
     print('refusing: /repo has local changes:\n' + st); sys.exit(2)
 summary = []
+# the checks rewrite evidence/<id>.json on every run: runs on seeded trees must not leave their evidence behind
+import shutil, tempfile, atexit
+_bak = tempfile.mkdtemp(prefix='xv-evidence.', dir='/var/tmp')
+shutil.copytree(os.path.join(HERE, 'evidence'), _bak + '/evidence')
+
+
+def _restore():
+    shutil.rmtree(os.path.join(HERE, 'evidence'))
+    shutil.copytree(_bak + '/evidence', os.path.join(HERE, 'evidence'))
+    shutil.rmtree(_bak)
+
+
+atexit.register(_restore)
 for sid in ids:
     d = os.path.join(HERE, 'seeded', sid)
     pf = os.path.join(d, 'patch.diff')
